@@ -28,6 +28,59 @@ thread_local! {
 
 pub const POISON_VALUE: i64 = -0x0DEAD0BEEF;
 
+// scripted debugger commands (hook H3): delivered into the umbilical channel at a chosen evaluator loop head
+thread_local! {
+    static STEPS:   StdCell<usize> = StdCell::new(0);
+    static SCRIPT:  RefCell<std::collections::VecDeque<(usize, String)>> = RefCell::new(Default::default());
+    static COMMAND_SENDER: RefCell<Option<std::sync::mpsc::Sender<DebugMessage>>> = RefCell::new(None);
+}
+
+pub fn set_command_sender(sender: Option<std::sync::mpsc::Sender<DebugMessage>>) {
+    COMMAND_SENDER.with(|s| *s.borrow_mut() = sender);
+    SCRIPT.with(|s| s.borrow_mut().clear());
+    STEPS.with(|s| s.set(0));
+}
+
+/// deliver `command` at the first loop head whose number (counted from 0 since the session started) is >= `at_step`
+pub fn script_command(at_step: usize, command: String) {
+    SCRIPT.with(|s| s.borrow_mut().push_back((at_step, command)));
+}
+
+pub fn steps() -> usize {
+    STEPS.with(|s| s.get())
+}
+
+fn send_next_command() -> bool {
+    let next = SCRIPT.with(|s| s.borrow_mut().pop_front());
+    if let Some((_, command)) = next {
+        COMMAND_SENDER.with(|s| {
+            if let Some(sender) = &*s.borrow() {
+                let mut dm = DebugMessage::new();
+                dm.insert("command".to_string(), command);
+                let _ = sender.send(dm);
+            }
+        });
+        true
+    }
+    else {
+        false
+    }
+}
+
+/// called at the head of the evaluator loop, before the umbilical is polled
+pub fn loop_head() {
+    let step = STEPS.with(|s| { let k = s.get(); s.set(k + 1); k });
+    let due = SCRIPT.with(|s| s.borrow().front().map(|(at, _)| *at <= step).unwrap_or(false));
+    if due {
+        send_next_command();
+    }
+}
+
+/// called before `receive` blocks: the debugger answers with its next command, whenever that was due
+pub fn before_blocking_receive() {
+    send_next_command();
+}
+
 pub fn set_schedule(s: Schedule) {
     SCHEDULE.with(|x| *x.borrow_mut() = s);
     ALLOCATIONS.with(|x| x.set(0));
